@@ -2,6 +2,7 @@ package rules
 
 import (
 	"go/ast"
+	"go/token"
 
 	"jetverif/an"
 )
@@ -96,4 +97,38 @@ func truthRule(c *an.Ctx, rule string) {
 	if !bad {
 		c.OK(rule, "isTrue", f.Pos(), "every return of isTrue equals v.IsValid() && !v.IsZero() under the path facts (%d return paths × 3 validity/zero cases)", nret)
 	}
+}
+
+// branchLeaves calls leaf for every comparison/identifier/call operand of a branch condition whose truth follows
+// from the condition having evaluated to val: both operands of a true &&, both of a false ||, the operand of !;
+// for a false && (true ||) an operand's truth is reported when the other operand is known to be true (false).
+func branchLeaves(x *an.Explorer, cond ast.Expr, val bool, st *an.State, leaf func(e ast.Expr, val bool)) {
+	switch e := an.Unparen(cond).(type) {
+	case *ast.UnaryExpr:
+		if e.Op == token.NOT {
+			branchLeaves(x, e.X, !val, st, leaf)
+			return
+		}
+	case *ast.BinaryExpr:
+		if e.Op == token.LAND || e.Op == token.LOR {
+			decisive := e.Op == token.LAND // the value both operands must have for the whole to have it
+			if val == decisive {
+				branchLeaves(x, e.X, val, st, leaf)
+				branchLeaves(x, e.Y, val, st, leaf)
+				return
+			}
+			// one operand has the other value; which one is known only through the other
+			if t, known := x.Truth(e.X, st); known && t == decisive {
+				branchLeaves(x, e.X, t, st, leaf)
+				branchLeaves(x, e.Y, val, st, leaf)
+			} else if t, known := x.Truth(e.Y, st); known && t == decisive {
+				branchLeaves(x, e.Y, t, st, leaf)
+				branchLeaves(x, e.X, val, st, leaf)
+			} else if known0, t0 := func() (bool, bool) { t, k := x.Truth(e.X, st); return k, t }(); known0 && t0 == val {
+				branchLeaves(x, e.X, val, st, leaf)
+			}
+			return
+		}
+	}
+	leaf(cond, val)
 }
